@@ -13,10 +13,15 @@ class Sys:
     """one dispatcher under test plus its call log"""
 
     def __init__(self, kind, table=None, coroutine_methods=None, **cfg):
+        # kind: 'sync' | 'async' | 'async-seq' (concurrent_batch=False) | 'async-wrapped' (plain functions returning coroutines)
         self.kind = kind
         self.log = []
-        self.is_async = kind == 'async'
+        self.is_async = kind.startswith('async')
         if self.is_async:
+            if 'seq' in kind:
+                cfg = dict(cfg, concurrent_batch=False)
+            if 'wrapped' in kind and coroutine_methods is None:
+                coroutine_methods = 'wrapped'
             self.d = pjrpc.server.AsyncDispatcher(**cfg)
         else:
             self.d = pjrpc.server.Dispatcher(**cfg)
